@@ -164,7 +164,7 @@ where
     let h = any_hash::<S1, S2, false>(m1, m2);
     let a = h.normalize();
     assert!(spec_norm_obj(&h, &a));
-    assert!(spec_valid(&a) && a.is_valid() && a.is_normalized());
+    assert!(spec_valid(&a));
     let b = <FuzzyHashData<S1, S2, true>>::from_raw_form(&h);
     let c = <FuzzyHashData<S1, S2, true>>::from(h);
     assert!(same_obj(&a, &b) && same_obj(&a, &c));
@@ -172,26 +172,51 @@ where
     let mut e = h;
     e.normalize_in_place();
     assert!(same_obj(&a, &d) && same_obj(&a, &e));
-    assert!(spec_valid(&d) && d.is_valid());
-    // is_normalized <=> normalization changes nothing
+    kani::cover!(!same_obj(&h, &d) && h.len_blockhash1 as usize == m1);
+    kani::cover!(same_obj(&h, &d) && h.len_blockhash2 as usize == m2);
+}
+
+/// is_normalized <=> normalization changes nothing; normalizing twice == once.
+fn c06_is_normalized<const S1: usize, const S2: usize>(m1: usize, m2: usize)
+where
+    BlockHashSize<S1>: ConstrainedBlockHashSize,
+    BlockHashSize<S2>: ConstrainedBlockHashSize,
+    BlockHashSizes<S1, S2>: ConstrainedBlockHashSizes,
+{
+    let h = any_hash::<S1, S2, false>(m1, m2);
+    let d = h.clone_normalized();
     assert!(h.is_normalized() == same_obj(&h, &d));
-    // idempotence
     let f = d.clone_normalized();
     assert!(same_obj(&d, &f));
+    let a = h.normalize();
+    assert!(a.is_normalized());
     let g = a.normalize();
     assert!(same_obj(&a, &g));
-    // reinterpretation keeps every symbol
+    kani::cover!(!h.is_normalized() && h.len_blockhash1 as usize == m1);
+    kani::cover!(h.is_normalized() && h.len_blockhash2 as usize == m2);
+}
+
+/// reinterpreting a normalized hash as raw keeps every symbol (all four routes, dirty destination)
+fn c06_reinterpret<const S1: usize, const S2: usize>(m1: usize, m2: usize)
+where
+    BlockHashSize<S1>: ConstrainedBlockHashSize,
+    BlockHashSize<S2>: ConstrainedBlockHashSize,
+    BlockHashSizes<S1, S2>: ConstrainedBlockHashSizes,
+{
+    let a = any_hash::<S1, S2, true>(m1, m2);
     let back = a.to_raw_form();
     let back2 = <FuzzyHashData<S1, S2, false>>::from_normalized(&a);
     let back3 = <FuzzyHashData<S1, S2, false>>::from(a);
     let mut back4 = dirty_hash::<S1, S2, false>();
     a.into_mut_raw_form(&mut back4);
     assert!(same_obj(&a, &back) && same_obj(&a, &back2) && same_obj(&a, &back3) && same_obj(&a, &back4));
-    assert!(spec_valid(&back) && back.is_valid());
-    kani::cover!(!h.is_normalized() && h.len_blockhash1 as usize == m1);
-    kani::cover!(h.is_normalized() && h.len_blockhash2 as usize == m2);
+    assert!(spec_valid(&back));
+    kani::cover!(a.len_blockhash1 as usize == m1 && a.len_blockhash2 as usize == m2);
 }
 
+#[kani::proof]
+#[kani::unwind(66)]
+fn c06_routes_short_m6() { c06_routes_raw::<64, 32>(6, 6) }
 #[kani::proof]
 #[kani::unwind(66)]
 fn c06_routes_short_m8() { c06_routes_raw::<64, 32>(8, 8) }
@@ -204,6 +229,18 @@ fn c06_routes_short_m12() { c06_routes_raw::<64, 32>(12, 12) }
 #[kani::proof]
 #[kani::unwind(66)]
 fn c06_routes_long_m12() { c06_routes_raw::<64, 64>(12, 12) }
+#[kani::proof]
+#[kani::unwind(66)]
+fn c06_is_normalized_short_m6() { c06_is_normalized::<64, 32>(6, 6) }
+#[kani::proof]
+#[kani::unwind(66)]
+fn c06_is_normalized_long_m10() { c06_is_normalized::<64, 64>(10, 10) }
+#[kani::proof]
+#[kani::unwind(66)]
+fn c06_reinterpret_short_full() { c06_reinterpret::<64, 32>(64, 32) }
+#[kani::proof]
+#[kani::unwind(66)]
+fn c06_reinterpret_long_full() { c06_reinterpret::<64, 64>(64, 64) }
 
 /// Short <-> long conversions (fresh and dirty destinations), any NORM.
 fn c15_short_long<const NORM: bool>(m1: usize, m2: usize) {
@@ -229,7 +266,7 @@ fn c15_short_long<const NORM: bool>(m1: usize, m2: usize) {
     assert!(same_obj(&back, &s));
     let back2 = <FuzzyHashData<64, 32, NORM>>::try_from(l1);
     assert!(back2.is_ok() && same_obj(&back2.unwrap(), &s));
-    kani::cover!(s.len_blockhash2 == 32);
+    kani::cover!(s.len_blockhash2 as usize == (if m2 < 32 { m2 } else { 32 }));
     kani::cover!(s.len_blockhash1 as usize == m1);
 }
 
@@ -441,26 +478,26 @@ fn c11_ooc_internals_raw_long_raw() { c11_ooc_internals_raw::<64, 64, false>() }
 // =====================================================================================
 
 /// Records every Hasher::write call (bytes and call boundaries).
-struct RecHasher {
-    log: [u8; 160],
+struct RecHasher<const LOG: usize> {
+    log: [u8; LOG],
     n: usize,
     calls: usize,
 }
-impl core::hash::Hasher for RecHasher {
+impl<const LOG: usize> core::hash::Hasher for RecHasher<LOG> {
     fn finish(&self) -> u64 {
         0
     }
     fn write(&mut self, bytes: &[u8]) {
         let mut i = 0;
         while i < bytes.len() {
-            if self.n < 160 {
+            if self.n < LOG {
                 self.log[self.n] = bytes[i];
             }
             self.n += 1;
             i += 1;
         }
         // call boundary marker
-        if self.n < 160 {
+        if self.n < LOG {
             self.log[self.n] = 0xee;
         }
         self.n += 1;
@@ -515,7 +552,7 @@ where
     spec_cmp_str::<S2>(&a.blockhash2, a.len_blockhash2 as usize, &b.blockhash2, b.len_blockhash2 as usize)
 }
 
-fn c16_pair<const S1: usize, const S2: usize, const NORM: bool>(m1: usize, m2: usize)
+fn c16_pair<const S1: usize, const S2: usize, const NORM: bool, const LOG: usize>(m1: usize, m2: usize)
 where
     BlockHashSize<S1>: ConstrainedBlockHashSize,
     BlockHashSize<S2>: ConstrainedBlockHashSize,
@@ -535,12 +572,12 @@ where
     assert!(a.partial_cmp(&b) == Some(o));
     assert!(ord_code(a.cmp_by_block_size(&b)) == (if a.log_blocksize < b.log_blocksize { -1 } else if a.log_blocksize > b.log_blocksize { 1 } else { 0 }));
     if a == b {
-        let mut ha = RecHasher { log: [0; 160], n: 0, calls: 0 };
-        let mut hb = RecHasher { log: [0; 160], n: 0, calls: 0 };
+        let mut ha = RecHasher::<LOG> { log: [0; LOG], n: 0, calls: 0 };
+        let mut hb = RecHasher::<LOG> { log: [0; LOG], n: 0, calls: 0 };
         a.hash(&mut ha);
         b.hash(&mut hb);
         assert!(ha.n == hb.n && ha.calls == hb.calls && same_bytes(&ha.log, &hb.log));
-        assert!(ha.n <= 160);
+        assert!(ha.n <= LOG);
     }
     kani::cover!(a == b && a.len_blockhash1 as usize == m1);
     kani::cover!(so == -1 && a.log_blocksize == b.log_blocksize && a.len_blockhash1 < b.len_blockhash1 && a.len_blockhash1 > 0);
@@ -550,28 +587,28 @@ where
 
 #[kani::proof]
 #[kani::unwind(66)]
-fn c16_pair_short_raw_m16() { c16_pair::<64, 32, false>(16, 16) }
+fn c16_pair_short_raw_m16() { c16_pair::<64, 32, false, 48>(16, 16) }
 #[kani::proof]
 #[kani::unwind(66)]
-fn c16_pair_short_norm_m16() { c16_pair::<64, 32, true>(16, 16) }
+fn c16_pair_short_norm_m16() { c16_pair::<64, 32, true, 48>(16, 16) }
 #[kani::proof]
 #[kani::unwind(66)]
-fn c16_pair_long_raw_m16() { c16_pair::<64, 64, false>(16, 16) }
+fn c16_pair_long_raw_m16() { c16_pair::<64, 64, false, 48>(16, 16) }
 #[kani::proof]
 #[kani::unwind(66)]
-fn c16_pair_long_norm_m16() { c16_pair::<64, 64, true>(16, 16) }
+fn c16_pair_long_norm_m16() { c16_pair::<64, 64, true, 48>(16, 16) }
 #[kani::proof]
-#[kani::unwind(66)]
-fn c16_pair_short_raw_full() { c16_pair::<64, 32, false>(64, 32) }
+#[kani::unwind(170)]
+fn c16_pair_short_raw_full() { c16_pair::<64, 32, false, 160>(64, 32) }
 #[kani::proof]
-#[kani::unwind(66)]
-fn c16_pair_long_raw_full() { c16_pair::<64, 64, false>(64, 64) }
+#[kani::unwind(170)]
+fn c16_pair_long_raw_full() { c16_pair::<64, 64, false, 160>(64, 64) }
 #[kani::proof]
-#[kani::unwind(66)]
-fn c16_pair_short_norm_full() { c16_pair::<64, 32, true>(64, 32) }
+#[kani::unwind(170)]
+fn c16_pair_short_norm_full() { c16_pair::<64, 32, true, 160>(64, 32) }
 #[kani::proof]
-#[kani::unwind(66)]
-fn c16_pair_long_norm_full() { c16_pair::<64, 64, true>(64, 64) }
+#[kani::unwind(170)]
+fn c16_pair_long_norm_full() { c16_pair::<64, 64, true, 160>(64, 64) }
 
 /// transitivity on triples
 fn c16_triple<const S1: usize, const S2: usize, const NORM: bool>(m: usize)
